@@ -42,7 +42,7 @@ CLAIMS = {
         text=('Acceptance by the real encoders is compared, on ~2.2 M operand tuples reaching far beyond both ends of every '
               'interval, all residues of every scale, all register numbers and non-register spellings, with the specification\'s '
               'Legal predicate (written from the ISA manual and the instruction reference) and with the Lean model; the text path '
-              'checks that illegal lines are refused by an AssemblerError and legal ones assemble. Theorems tie model acceptance to Legal. Whole programs (C06Program.lean): unrepresentable_refused_program(16) - an instruction whose operands are not Legal, anywhere among good items, makes the whole assembly fail with the error on its line (no output), both modes; legal_instr_good + good_program_assembles - Legal literal instructions are accepted in both modes and a program of good items assembles.'),
+              'checks that illegal lines are refused by an AssemblerError and legal ones assemble. Theorems tie model acceptance to Legal. Whole programs (C06Program.lean): unrepresentable_refused_program(16) - an instruction whose operands are not Legal, anywhere among good items, makes the whole assembly fail with the error on its line (no output), both modes; legal_instr_good + good_program_assembles - Legal literal 32-bit instructions are accepted in both modes and a program of good items assembles.'),
         note=TB + ' CSR numbers follow the signed 12-bit I-immediate (documented nowhere else); jalr offsets must be even as documented.',
         ref='DESIGN.md §5 C06'),
     'C07': dict(
@@ -52,7 +52,7 @@ CLAIMS = {
               '(hi<<12)+lo = v mod 2^32, the U/I/S encoders accept them, and the field placed at bit 12 plus the sign-extended '
               'low part rebuilds v mod 2^32. Tie: relocate_hi/relocate_lo/sign_extend of the real module agree with the model on '
               '~60 k structured values (all low-12-bit patterns x upper classes, negative and >2^32 spellings); lui/auipc + '
-              'addi/lw/sw/jalr programs with %hi/%lo of literals, constants, labels and %position are assembled and decoded by the Lean spec. Whole programs (C07Program.lean): assemble_hi_lo_pair - a lui %hi(e) and any consumer of %lo(e) anywhere in a successful assembly decode to fields that rebuild value(e) mod 2^32 whenever e is position-free (labels, constants, %position); offset_pair_not_rebuilt is the counterexample for %offset.'),
+              'addi/lw/sw/jalr programs with %hi/%lo of literals, constants, labels and %position are assembled and decoded by the Lean spec. Whole programs (C07Program.lean): assemble_hi_lo_pair - a lui %hi(e) and any 32-bit consumer of %lo(e) (I-type, load, store, jalr; auipc pairs, c.lui and compressed consumers are outside the theorem) anywhere in a successful assembly decode to fields that rebuild value(e) mod 2^32 whenever e is position-free (labels, constants, %position); offset_pair_not_rebuilt is the counterexample for %offset.'),
         note=TB,
         ref='DESIGN.md §5 C07'),
 }
@@ -141,7 +141,7 @@ CLAIMS.update({
               'call_far_emitted). Tie and search: for every pseudo-instruction line (all 27, all register choices incl. rd=rs/x0/sp, li '
               'values on the 12-/32-bit edges, all distance classes incl. far call/tail) the code emitted by the REAL assembler, without '
               'and with -c, is executed by the Lean specification from 8 register files and compared with the documented effect. Known '
-              'findings KF-A6 / KF-D5: li whose operand depends on labels (width decided early). Whole programs (C05Program*.lean): in every successful assembly, both modes, the bytes a pseudo-instruction contributes at its offset execute with the documented effect (assemble_li_effect for label-free operands, assemble_pseudo_branch_effect / jump / call / tail to labels of the returned table with link = pc + emitted size, assemble_unary_effect, assemble_jr_effect, assemble_misc_effect); hypotheses: non-negative literals, target label not shadowed by a constant, no hand-written c.* items when -c.'),
+              'findings KF-A6 / KF-D5: li whose operand depends on labels (width decided early). Whole programs (C05Program*.lean): in every successful assembly, both modes, the bytes a pseudo-instruction contributes at its offset execute with the documented effect (assemble_li_effect for label-free operands, assemble_pseudo_branch_effect / jump / call / tail to labels of the returned table with link = pc + emitted size, assemble_unary_effect, assemble_jr_effect, assemble_misc_effect); hypotheses: no item of negative size, the hook properties LitOK / Neg1OK / OffsetHook, for li an operand whose value does not depend on labels, target label not shadowed by a constant, no hand-written c.* items when -c.'),
         note=TB + ' call_far_effect / tail_far_effect need an even pc (JALR clears bit 0); the hypothesis-free forms are *_raw.',
         ref='DESIGN.md §5 C05'),
     'C12': dict(
